@@ -44,3 +44,12 @@ def register(claim):
           "Partial: termination and 'only cycle edges are broken' are checked per explored graph, not proved. The derivation of the graph from the "
           "loaded databases is not modelled (the intended graph is given to the model).",
           "Lean 4 proof (loop invariant over the ordering algorithm) + differential correspondence on all small digraphs", "DESIGN.md §5 C16")
+    claim("C19",
+          "Lean 4 theorem: a stream protocol accepted by the syntactic check `wellChecked` turns, under EVERY fault schedule (which open / buffer "
+          "flush / close fails and when the buffer happens to be flushed), lost output into a non-zero exit (wellChecked_sound, by an abstraction "
+          "relation carried through every statement). The protocols of both main() functions are extracted from the source on every run and the "
+          "kernel decides wellChecked on them (c19_interrogate, c19_module). Fault injection at every k-th open/write/close of every channel plus "
+          "the static failures is run against the real binaries.",
+          "libstdc++ basic_filebuf behaviour is assumed as stated in Model/OutProto.lean and validated by the fault-injection runs; the translator "
+          "must recognise every stream/status statement (otherwise the obligation fails).",
+          "Lean 4 proof (abstract interpretation soundness over fault schedules) + extracted protocol + exhaustive fault injection", "DESIGN.md §5 C19")
